@@ -220,6 +220,7 @@ def finish(prop_id, prop, tier, master_seed, tasks, summaries, skipped, harness_
     faults = Counter()
     kinds = Counter()
     distinct = set()
+    observed_max = {}
     nontrivial = 0
     events = draws = 0
     sim_time = 0.0
@@ -231,6 +232,9 @@ def finish(prop_id, prop, tier, master_seed, tasks, summaries, skipped, harness_
             continue
         for key, value in s.get("probes", {}).items():
             probes[key] += value
+        for key, value in (s.get("notes") or {}).items():
+            if isinstance(value, (int, float)) and not isinstance(value, bool):
+                observed_max[key] = max(observed_max.get(key, value), value)
         for key, value in s.get("faults", {}).items():
             faults[key] += value
         for key, value in s.get("kinds", {}).items():
@@ -300,6 +304,7 @@ def finish(prop_id, prop, tier, master_seed, tasks, summaries, skipped, harness_
         "event_kinds": dict(kinds),
         "faults_fired": dict(faults),
         "probes": dict(probes),
+        "largest_observed": observed_max,
         "distinct_behaviours": len(distinct),
         "distinct_behaviours_measure": getattr(prop, "DISTINCT_MEASURE", "distinct 4-grams of (handler kind, "
                                                "active unit changed) in the commit sequences"),
